@@ -840,6 +840,9 @@ impl<Backing : AsRef<[u32]> + AsMut<[u32]>> DrawTarget<Backing> {
         };
         let mut combined_bounds = euclid::Rect::zero();
         for (id, position) in ids.iter().zip(positions.iter()) {
+            // the glyphs are rasterized at their device positions (below): their bounds
+            // have to be taken there too
+            let position = self.transform.transform_point(*position);
             let bounds = font.raster_bounds(
                 *id,
                 point_size,
